@@ -139,10 +139,11 @@ IndexNode(acc, c, idxs) ==
 \* slice bounds logic (operator_slice.go)
 SliceSeq(v, a, b) ==
   LET n == Len(v.e)
-      ra == IF a < 0 THEN n + a ELSE a
-      rb == IF b < 0 THEN n + b ELSE IF b > n THEN n ELSE b
-  IN IF ra < 0 THEN [ok |-> FALSE, v |-> Null]                            \* from < -len : panics today (C11 finding); left open
-     ELSE [ok |-> TRUE, v |-> SeqV(IF ra >= rb THEN <<>> ELSE SubSeq(v.e, ra + 1, rb))]
+      ra0 == IF a < 0 THEN n + a ELSE a
+      ra == IF ra0 < 0 THEN 0 ELSE ra0                                     \* a start before the first element is the first element
+      rb0 == IF b < 0 THEN n + b ELSE IF b > n THEN n ELSE b
+      rb == IF rb0 < 0 THEN 0 ELSE rb0
+  IN [ok |-> TRUE, v |-> SeqV(IF ra >= rb THEN <<>> ELSE SubSeq(v.e, ra + 1, rb))]
 
 \* ---------------------------------------------------------------- binary calculations
 \* operands are [some |-> BOOLEAN, v |-> Value]; results R(v) | RNone | RErr | RUnspec
